@@ -19,8 +19,6 @@ pub mod co_io;
 pub mod net;
 pub mod wait_io;
 
-#[cfg(feature = "io_timeout")]
-use std::cell::RefCell;
 use std::ops::Deref;
 use std::os::fd::{AsFd, BorrowedFd};
 use std::os::unix::io::{AsRawFd, RawFd};
@@ -89,7 +87,7 @@ fn timeout_handler(data: TimerData) {
     #[cfg(may_verif)]
     may_queue::verif::point(may_queue::verif::site::IO_TIMEOUT_HANDLER_ENTER, 0);
     // remove the event timer
-    event_data.timer.borrow_mut().take();
+    event_data.timer.take();
 
     #[cfg(may_verif)]
     may_queue::verif::point(may_queue::verif::site::IO_TIMEOUT_TIMER_TAKEN, 0);
@@ -121,8 +119,9 @@ pub type TimerHandle = TimeoutHandle<TimerData>;
 pub struct EventData {
     pub fd: RawFd,
     pub io_flag: AtomicUsize,
+    // set by the thread that subscribes the io, taken by the selector thread
     #[cfg(feature = "io_timeout")]
-    pub timer: RefCell<Option<TimerHandle>>,
+    pub timer: AtomicOption<TimerHandle>,
     pub co: AtomicOption<CoroutineImpl>,
 }
 
@@ -135,7 +134,7 @@ impl EventData {
             fd,
             io_flag: AtomicUsize::new(0),
             #[cfg(feature = "io_timeout")]
-            timer: RefCell::new(None),
+            timer: AtomicOption::none(),
             co: AtomicOption::none(),
         }
     }
@@ -158,7 +157,7 @@ impl EventData {
         may_queue::verif::point(may_queue::verif::site::IO_SCHEDULE_TOOK, 0);
         // it's safe to remove the timer since we are running the timer_list in the same thread
         #[cfg(feature = "io_timeout")]
-        self.timer.borrow_mut().take().map(|h| {
+        self.timer.take().map(|h| {
             unsafe {
                 // tell the timer function not to cancel the io
                 // it's not always true that you can really remove the timer entry
@@ -183,7 +182,7 @@ impl EventData {
         may_queue::verif::point(may_queue::verif::site::IO_SCHEDULE_TOOK, 0);
         // it's safe to remove the timer since we are running the timer_list in the same thread
         #[cfg(feature = "io_timeout")]
-        self.timer.borrow_mut().take().map(|h| {
+        self.timer.take().map(|h| {
             unsafe {
                 // tell the timer function not to cancel the io
                 // it's not always true that you can really remove the timer entry
